@@ -1,63 +1,15 @@
-// Copyright 2013 The Go Authors. All rights reserved.
-// Use of this source code is governed by a BSD-style
-// license that can be found in the LICENSE file.
-
-// Package ssa/interp defines an interpreter for the SSA
-// representation of Go programs.
-//
-// This interpreter is provided as an adjunct for testing the SSA
-// construction algorithm.  Its purpose is to provide a minimal
-// metacircular implementation of the dynamic semantics of each SSA
-// instruction.  It is not, and will never be, a production-quality Go
-// interpreter.
-//
-// The following is a partial list of Go features that are currently
-// unsupported or incomplete in the interpreter.
-//
-// * Unsafe operations, including all uses of unsafe.Pointer, are
-// impossible to support given the "boxed" value representation we
-// have chosen.
-//
-// * The reflect package is only partially implemented.
-//
-// * The "testing" package is no longer supported because it
-// depends on low-level details that change too often.
-//
-// * "sync/atomic" operations are not atomic due to the "boxed" value
-// representation: it is not possible to read, modify and write an
-// interface value atomically. As a consequence, Mutexes are currently
-// broken.
-//
-// * recover is only partially implemented.  Also, the interpreter
-// makes no attempt to distinguish target panics from interpreter
-// crashes.
-//
-// * the sizes of the int, uint and uintptr types in the target
-// program are assumed to be the same as those of the interpreter
-// itself.
-//
-// * all values occupy space, even those of types defined by the spec
-// to have zero size, e.g. struct{}.  This can cause asymptotic
-// performance degradation.
-//
-// * os.Exit is implemented using panic, causing deferred functions to
-// run.
-package interp // import "golang.org/x/tools/go/ssa/interp"
+package symgo
 
 import (
 	"fmt"
 	"go/token"
 	"go/types"
-	"log"
-	"os"
-	"reflect"
-	"runtime"
 	"slices"
-	"sync/atomic"
-	_ "unsafe"
+	"strings"
 
 	"golang.org/x/tools/go/ssa"
-	"golang.org/x/tools/internal/typeparams"
+
+	"verif/engine/smt"
 )
 
 type continuation int
@@ -68,30 +20,6 @@ const (
 	kJump
 )
 
-// Mode is a bitmask of options affecting the interpreter.
-type Mode uint
-
-const (
-	DisableRecover Mode = 1 << iota // Disable recover() in target programs; show interpreter crash instead.
-	EnableTracing                   // Print a trace of all instructions as they are interpreted.
-)
-
-type methodSet map[string]*ssa.Function
-
-// State shared between all interpreted goroutines.
-type interpreter struct {
-	osArgs             []value                // the value of os.Args
-	prog               *ssa.Program           // the SSA program
-	globals            map[*ssa.Global]*value // addresses of global variables (immutable)
-	mode               Mode                   // interpreter options
-	reflectPackage     *ssa.Package           // the fake reflect package
-	errorMethods       methodSet              // the method set of reflect.error, which implements the error interface.
-	rtypeMethods       methodSet              // the method set of rtype, which implements the reflect.Type interface.
-	runtimeErrorString types.Type             // the runtime.errorString type (iff "runtime" is present)
-	sizes              types.Sizes            // the effective type-sizing function
-	goroutines         int32                  // atomically updated
-}
-
 type deferred struct {
 	fn    value
 	args  []value
@@ -100,121 +28,102 @@ type deferred struct {
 }
 
 type frame struct {
-	i                *interpreter
+	m                *Machine
+	g                *goroutine
 	caller           *frame
 	fn               *ssa.Function
 	block, prevBlock *ssa.BasicBlock
-	env              map[ssa.Value]value // dynamic values of SSA variables
+	env              map[ssa.Value]value
 	locals           []value
 	defers           *deferred
 	result           value
 	panicking        bool
 	panic            any
-	phitemps         []value // temporaries for parallel phi assignment
+	phitemps         []value
+	depth            int
 }
 
 func (fr *frame) get(key ssa.Value) value {
 	switch key := key.(type) {
 	case nil:
-		// Hack; simplifies handling of optional attributes
-		// such as ssa.Slice.{Low,High}.
 		return nil
 	case *ssa.Function, *ssa.Builtin:
 		return key
 	case *ssa.Const:
 		return constValue(key)
 	case *ssa.Global:
-		if r, ok := fr.i.globals[key]; ok {
-			return r
-		}
+		return fr.m.global(key)
 	}
 	if r, ok := fr.env[key]; ok {
 		return r
 	}
-	panic(fmt.Sprintf("get: no value for %T: %v", key, key.Name()))
+	panic(engineFault{fmt.Sprintf("get: no value for %T: %v in %s", key, key.Name(), fr.fn)})
 }
 
-// runDefer runs a deferred call d.
-// It always returns normally, but may set or clear fr.panic.
 func (fr *frame) runDefer(d *deferred) {
-	if fr.i.mode&EnableTracing != 0 {
-		fmt.Fprintf(os.Stderr, "%s: invoking deferred function call\n",
-			fr.i.prog.Fset.Position(d.instr.Pos()))
-	}
 	var ok bool
 	defer func() {
 		if !ok {
-			// Deferred call created a new state of panic.
+			r := recover()
+			if isEngineAbort(r) {
+				panic(r)
+			}
 			fr.panicking = true
-			fr.panic = recover()
+			fr.panic = r
 		}
 	}()
-	call(fr.i, fr, d.instr.Pos(), d.fn, d.args)
+	fr.m.call(fr, d.instr.Pos(), d.fn, d.args)
 	ok = true
 }
 
-// runDefers executes fr's deferred function calls in LIFO order.
-//
-// On entry, fr.panicking indicates a state of panic; if
-// true, fr.panic contains the panic value.
-//
-// On completion, if a deferred call started a panic, or if no
-// deferred call recovered from a previous state of panic, then
-// runDefers itself panics after the last deferred call has run.
-//
-// If there was no initial state of panic, or it was recovered from,
-// runDefers returns normally.
 func (fr *frame) runDefers() {
 	for d := fr.defers; d != nil; d = d.tail {
+		fr.defers = d.tail
 		fr.runDefer(d)
 	}
 	fr.defers = nil
 	if fr.panicking {
-		panic(fr.panic) // new panic, or still panicking
+		panic(fr.panic)
 	}
 }
 
-// lookupMethod returns the method set for type typ, which may be one
-// of the interpreter's fake types.
-func lookupMethod(i *interpreter, typ types.Type, meth *types.Func) *ssa.Function {
-	switch typ {
-	case rtypeType:
-		return i.rtypeMethods[meth.Id()]
-	case errorType:
-		return i.errorMethods[meth.Id()]
-	}
-	return i.prog.LookupMethod(typ, meth.Pkg(), meth.Name())
+func (m *Machine) lookupMethod(typ types.Type, meth *types.Func) *ssa.Function {
+	return m.prog.Prog.LookupMethod(typ, meth.Pkg(), meth.Name())
 }
 
-// visitInstr interprets a single ssa.Instruction within the activation
-// record frame.  It returns a continuation value indicating where to
-// read the next instruction from.
-func visitInstr(fr *frame, instr ssa.Instruction) continuation {
+func (m *Machine) step() {
+	m.steps++
+	if m.steps > m.cfg.MaxSteps {
+		panic(pathEnd{"budget", fmt.Sprintf("step budget %d exhausted", m.cfg.MaxSteps)})
+	}
+}
+
+func (m *Machine) visitInstr(fr *frame, instr ssa.Instruction) continuation {
+	m.step()
 	switch instr := instr.(type) {
 	case *ssa.DebugRef:
-		// no-op
 
 	case *ssa.UnOp:
-		fr.env[instr] = unop(instr, fr.get(instr.X))
+		fr.env[instr] = m.unop(fr, instr, fr.get(instr.X))
 
 	case *ssa.BinOp:
-		fr.env[instr] = binop(instr.Op, instr.X.Type(), fr.get(instr.X), fr.get(instr.Y))
+		fr.env[instr] = m.binop(instr.Op, instr.X.Type(), fr.get(instr.X), fr.get(instr.Y))
 
 	case *ssa.Call:
-		fn, args := prepareCall(fr, &instr.Call)
-		fr.env[instr] = call(fr.i, fr, instr.Pos(), fn, args)
+		fn, args := m.prepareCall(fr, &instr.Call)
+		fr.env[instr] = m.call(fr, instr.Pos(), fn, args)
 
 	case *ssa.ChangeInterface:
 		fr.env[instr] = fr.get(instr.X)
 
 	case *ssa.ChangeType:
-		fr.env[instr] = fr.get(instr.X) // (can't fail)
+		fr.env[instr] = fr.get(instr.X)
 
 	case *ssa.Convert:
-		fr.env[instr] = conv(instr.Type(), instr.X.Type(), fr.get(instr.X))
+		fr.env[instr] = m.conv(instr.Type(), instr.X.Type(), fr.get(instr.X))
 
 	case *ssa.SliceToArrayPointer:
-		fr.env[instr] = sliceToArrayPointer(instr.Type(), instr.X.Type(), fr.get(instr.X))
+		fr.env[instr] = m.sliceToArrayPointer(instr.Type(), instr.X.Type(), fr.get(instr.X))
 
 	case *ssa.MakeInterface:
 		fr.env[instr] = iface{t: instr.X.Type(), v: fr.get(instr.X)}
@@ -223,7 +132,7 @@ func visitInstr(fr *frame, instr ssa.Instruction) continuation {
 		fr.env[instr] = fr.get(instr.Tuple).(tuple)[instr.Index]
 
 	case *ssa.Slice:
-		fr.env[instr] = slice(fr.get(instr.X), fr.get(instr.Low), fr.get(instr.High), fr.get(instr.Max))
+		fr.env[instr] = m.slice(fr.get(instr.X), fr.get(instr.Low), fr.get(instr.High), fr.get(instr.Max))
 
 	case *ssa.Return:
 		switch len(instr.Results) {
@@ -247,14 +156,19 @@ func visitInstr(fr *frame, instr ssa.Instruction) continuation {
 		panic(targetPanic{fr.get(instr.X)})
 
 	case *ssa.Send:
-		fr.get(instr.Chan).(chan value) <- fr.get(instr.X)
+		ch, _ := fr.get(instr.Chan).(*vchan)
+		m.chanSend(ch, fr.get(instr.X))
 
 	case *ssa.Store:
-		store(typeparams.MustDeref(instr.Addr.Type()), fr.get(instr.Addr).(*value), fr.get(instr.Val))
+		p := fr.get(instr.Addr).(*value)
+		if p == nil {
+			m.rtPanic("invalid memory address or nil pointer dereference")
+		}
+		store(nil, p, fr.get(instr.Val))
 
 	case *ssa.If:
 		succ := 1
-		if fr.get(instr.Cond).(bool) {
+		if m.decide(fr.get(instr.Cond), "if") {
 			succ = 0
 		}
 		fr.prevBlock, fr.block = fr.block, fr.block.Succs[succ]
@@ -265,114 +179,113 @@ func visitInstr(fr *frame, instr ssa.Instruction) continuation {
 		return kJump
 
 	case *ssa.Defer:
-		fn, args := prepareCall(fr, &instr.Call)
+		fn, args := m.prepareCall(fr, &instr.Call)
 		defers := &fr.defers
-		if into := fr.get(instr.DeferStack); into != nil {
-			defers = into.(**deferred)
+		if instr.DeferStack != nil {
+			if into := fr.get(instr.DeferStack); into != nil {
+				defers = into.(**deferred)
+			}
 		}
-		*defers = &deferred{
-			fn:    fn,
-			args:  args,
-			instr: instr,
-			tail:  *defers,
-		}
+		*defers = &deferred{fn: fn, args: args, instr: instr, tail: *defers}
 
 	case *ssa.Go:
-		fn, args := prepareCall(fr, &instr.Call)
-		atomic.AddInt32(&fr.i.goroutines, 1)
-		go func() {
-			call(fr.i, nil, instr.Pos(), fn, args)
-			atomic.AddInt32(&fr.i.goroutines, -1)
-		}()
+		fn, args := m.prepareCall(fr, &instr.Call)
+		m.spawn(fn, args, instr.Pos())
 
 	case *ssa.MakeChan:
-		fr.env[instr] = make(chan value, asInt64(fr.get(instr.Size)))
+		sz := fr.get(instr.Size)
+		if isSym(sz) {
+			sz = m.concretizeRange(sz, "chan-size")
+		}
+		fr.env[instr] = m.newChan(int(asInt64(sz)), instr.Type().Underlying().(*types.Chan).Elem())
 
 	case *ssa.Alloc:
 		var addr *value
 		if instr.Heap {
-			// new
 			addr = new(value)
 			fr.env[instr] = addr
 		} else {
-			// local
 			addr = fr.env[instr].(*value)
 		}
-		*addr = zero(typeparams.MustDeref(instr.Type()))
+		*addr = zero(deref(instr.Type()))
 
 	case *ssa.MakeSlice:
-		slice := make([]value, asInt64(fr.get(instr.Cap)))
-		tElt := instr.Type().Underlying().(*types.Slice).Elem()
-		for i := range slice {
-			slice[i] = zero(tElt)
+		n := m.allocSize(fr.get(instr.Len), "make([]T, len)")
+		c := m.allocSize(fr.get(instr.Cap), "make([]T, _, cap)")
+		if n > c {
+			m.rtPanic("makeslice: cap out of range")
 		}
-		fr.env[instr] = slice[:asInt64(fr.get(instr.Len))]
+		sl := make([]value, c)
+		tElt := instr.Type().Underlying().(*types.Slice).Elem()
+		for i := range sl {
+			sl[i] = zero(tElt)
+		}
+		fr.env[instr] = sl[:n]
 
 	case *ssa.MakeMap:
-		var reserve int64
 		if instr.Reserve != nil {
-			reserve = asInt64(fr.get(instr.Reserve))
+			m.allocSize(fr.get(instr.Reserve), "make(map, hint)")
 		}
-		if !fitsInt(reserve, fr.i.sizes) {
-			panic(fmt.Sprintf("ssa.MakeMap.Reserve value %d does not fit in int", reserve))
-		}
-		fr.env[instr] = makeMap(instr.Type().Underlying().(*types.Map).Key(), reserve)
+		fr.env[instr] = newOmap(instr.Type().Underlying().(*types.Map).Key())
 
 	case *ssa.Range:
-		fr.env[instr] = rangeIter(fr.get(instr.X))
+		fr.env[instr] = m.rangeIter(fr.get(instr.X))
 
 	case *ssa.Next:
-		fr.env[instr] = fr.get(instr.Iter).(iter).next()
+		fr.env[instr] = fr.get(instr.Iter).(iter).next(m)
 
 	case *ssa.FieldAddr:
-		fr.env[instr] = &(*fr.get(instr.X).(*value)).(structure)[instr.Field]
+		p := fr.get(instr.X).(*value)
+		if p == nil {
+			m.rtPanic("invalid memory address or nil pointer dereference")
+		}
+		fr.env[instr] = &(*p).(structure)[instr.Field]
 
 	case *ssa.Field:
-		fr.env[instr] = fr.get(instr.X).(structure)[instr.Field]
+		fr.env[instr] = copyVal(fr.get(instr.X).(structure)[instr.Field])
 
 	case *ssa.IndexAddr:
 		x := fr.get(instr.X)
 		idx := fr.get(instr.Index)
 		switch x := x.(type) {
 		case []value:
-			fr.env[instr] = &x[asInt64(idx)]
-		case *value: // *array
-			fr.env[instr] = &(*x).(array)[asInt64(idx)]
+			i := m.concreteIndex(idx, len(x), "slice")
+			fr.env[instr] = &x[i]
+		case *value:
+			if x == nil {
+				m.rtPanic("invalid memory address or nil pointer dereference")
+			}
+			a := (*x).(array)
+			i := m.concreteIndex(idx, len(a), "array")
+			fr.env[instr] = &a[i]
 		default:
-			panic(fmt.Sprintf("unexpected x type in IndexAddr: %T", x))
+			panic(engineFault{fmt.Sprintf("unexpected x type in IndexAddr: %T", x)})
 		}
 
 	case *ssa.Index:
 		x := fr.get(instr.X)
 		idx := fr.get(instr.Index)
-
 		switch x := x.(type) {
 		case array:
-			fr.env[instr] = x[asInt64(idx)]
-		case string:
-			fr.env[instr] = x[asInt64(idx)]
+			i := m.concreteIndex(idx, len(x), "array")
+			fr.env[instr] = copyVal(x[i])
+		case string, sstr:
+			b := strBytes(x)
+			i := m.concreteIndex(idx, len(b), "string")
+			fr.env[instr] = b[i]
 		default:
-			panic(fmt.Sprintf("unexpected x type in Index: %T", x))
+			panic(engineFault{fmt.Sprintf("unexpected x type in Index: %T", x)})
 		}
 
 	case *ssa.Lookup:
-		fr.env[instr] = lookup(instr, fr.get(instr.X), fr.get(instr.Index))
+		fr.env[instr] = m.lookup(instr, fr.get(instr.X), fr.get(instr.Index))
 
 	case *ssa.MapUpdate:
-		m := fr.get(instr.Map)
-		key := fr.get(instr.Key)
-		v := fr.get(instr.Value)
-		switch m := m.(type) {
-		case map[value]value:
-			m[key] = v
-		case *hashmap:
-			m.insert(key.(hashable), v)
-		default:
-			panic(fmt.Sprintf("illegal map type: %T", m))
-		}
+		mm := fr.get(instr.Map).(*omap)
+		m.omapSet(mm, fr.get(instr.Key), copyVal(fr.get(instr.Value)))
 
 	case *ssa.TypeAssert:
-		fr.env[instr] = typeAssert(instr, fr.get(instr.X).(iface))
+		fr.env[instr] = m.typeAssert(instr, fr.get(instr.X).(iface))
 
 	case *ssa.MakeClosure:
 		var bindings []value
@@ -382,83 +295,75 @@ func visitInstr(fr *frame, instr ssa.Instruction) continuation {
 		fr.env[instr] = &closure{instr.Fn.(*ssa.Function), bindings}
 
 	case *ssa.Phi:
-		log.Fatal("unreachable") // phis are processed at block entry
+		panic(engineFault{"phi reached"})
 
 	case *ssa.Select:
-		var cases []reflect.SelectCase
-		if !instr.Blocking {
-			cases = append(cases, reflect.SelectCase{
-				Dir: reflect.SelectDefault,
-			})
-		}
-		for _, state := range instr.States {
-			var dir reflect.SelectDir
-			if state.Dir == types.RecvOnly {
-				dir = reflect.SelectRecv
-			} else {
-				dir = reflect.SelectSend
-			}
-			var send reflect.Value
-			if state.Send != nil {
-				send = reflect.ValueOf(fr.get(state.Send))
-			}
-			cases = append(cases, reflect.SelectCase{
-				Dir:  dir,
-				Chan: reflect.ValueOf(fr.get(state.Chan)),
-				Send: send,
-			})
-		}
-		chosen, recv, recvOk := reflect.Select(cases)
-		if !instr.Blocking {
-			chosen-- // default case should have index -1.
-		}
-		r := tuple{chosen, recvOk}
-		for i, st := range instr.States {
-			if st.Dir == types.RecvOnly {
-				var v value
-				if i == chosen && recvOk {
-					// No need to copy since send makes an unaliased copy.
-					v = recv.Interface().(value)
-				} else {
-					v = zero(st.Chan.Type().Underlying().(*types.Chan).Elem())
-				}
-				r = append(r, v)
-			}
-		}
-		fr.env[instr] = r
+		fr.env[instr] = m.doSelect(fr, instr)
 
 	default:
-		panic(fmt.Sprintf("unexpected instruction: %T", instr))
+		panic(unsupported{fmt.Sprintf("instruction %T", instr)})
 	}
-
-	// if val, ok := instr.(ssa.Value); ok {
-	// 	fmt.Println(toString(fr.env[val])) // debugging
-	// }
-
 	return kNext
 }
 
-// prepareCall determines the function value and argument values for a
-// function call in a Call, Go or Defer instruction, performing
-// interface method lookup if needed.
-func prepareCall(fr *frame, call *ssa.CallCommon) (fn value, args []value) {
+func deref(t types.Type) types.Type {
+	if p, ok := t.Underlying().(*types.Pointer); ok {
+		return p.Elem()
+	}
+	panic(engineFault{"deref of non-pointer " + t.String()})
+}
+
+// allocSize checks an allocation request against the budget on the still
+// symbolic term, then concretises it.
+func (m *Machine) allocSize(v value, what string) int {
+	if s, ok := v.(symv); ok {
+		w := kindWidth(s.k)
+		lim := m.ctx.BV(uint64(m.cfg.AllocBudget), w)
+		var over *smt.Term
+		if kindSigned(s.k) {
+			over = m.ctx.Cmp(smt.OpSlt, lim, s.t)
+			neg := m.ctx.Cmp(smt.OpSlt, s.t, m.ctx.BV(0, w))
+			if m.decide(mkScalar(neg, types.Bool), "alloc-negative") {
+				m.rtPanic("makeslice: len out of range")
+			}
+		} else {
+			over = m.ctx.Cmp(smt.OpUlt, lim, s.t)
+		}
+		if m.decide(mkScalar(over, types.Bool), "alloc-over-budget") {
+			m.onAllocOverBudget(what)
+		}
+		return int(asInt64(m.concretize(v, "alloc-size")))
+	}
+	n := asInt64(v)
+	if k, _ := kindOf(v); !kindSigned(k) && bitsOf(v) > uint64(1<<62) {
+		n = -1
+	}
+	if n < 0 {
+		m.rtPanic("makeslice: len out of range")
+	}
+	if n > int64(m.cfg.AllocBudget) {
+		m.onAllocOverBudget(what)
+	}
+	return int(n)
+}
+
+func (m *Machine) prepareCall(fr *frame, call *ssa.CallCommon) (fn value, args []value) {
 	v := fr.get(call.Value)
 	if call.Method == nil {
-		// Function call.
 		fn = v
 	} else {
-		// Interface method invocation.
 		recv := v.(iface)
 		if recv.t == nil {
-			panic("method invoked on nil interface")
+			m.rtPanic("invalid memory address or nil pointer dereference (method " + call.Method.Name() + " on nil interface)")
 		}
-		if f := lookupMethod(fr.i, recv.t, call.Method); f == nil {
-			// Unreachable in well-typed programs.
-			panic(fmt.Sprintf("method set for dynamic type %v does not contain %s", recv.t, call.Method))
+		if rt, ok := recv.v.(rtype); ok && recv.t == m.prog.rtypeMarker {
+			fn = &rtypeMethod{name: call.Method.Name(), recv: rt}
+		} else if f := m.lookupMethod(recv.t, call.Method); f == nil {
+			panic(engineFault{fmt.Sprintf("method set for dynamic type %v does not contain %s", recv.t, call.Method)})
 		} else {
 			fn = f
+			args = append(args, recv.v)
 		}
-		args = append(args, recv.v)
 	}
 	for _, arg := range call.Args {
 		args = append(args, fr.get(arg))
@@ -466,73 +371,63 @@ func prepareCall(fr *frame, call *ssa.CallCommon) (fn value, args []value) {
 	return
 }
 
-// call interprets a call to a function (function, builtin or closure)
-// fn with arguments args, returning its result.
-// callpos is the position of the callsite.
-func call(i *interpreter, caller *frame, callpos token.Pos, fn value, args []value) value {
+func (m *Machine) call(caller *frame, callpos token.Pos, fn value, args []value) value {
 	switch fn := fn.(type) {
 	case *ssa.Function:
 		if fn == nil {
-			panic("call of nil function") // nil of func type
+			m.rtPanic("invalid memory address or nil pointer dereference (call of nil func)")
 		}
-		return callSSA(i, caller, callpos, fn, args, nil)
+		return m.callSSA(caller, callpos, fn, args, nil)
 	case *closure:
-		return callSSA(i, caller, callpos, fn.Fn, args, fn.Env)
+		return m.callSSA(caller, callpos, fn.Fn, args, fn.Env)
 	case *ssa.Builtin:
-		return callBuiltin(caller, fn, args)
+		return m.callBuiltin(caller, fn, args)
+	case *rtypeMethod:
+		return m.callRtypeMethod(fn, args)
+	case *hostFunc:
+		return fn.f(m, caller, args)
 	}
-	panic(fmt.Sprintf("cannot call %T", fn))
+	panic(engineFault{fmt.Sprintf("cannot call %T", fn)})
 }
 
-func loc(fset *token.FileSet, pos token.Pos) string {
-	if pos == token.NoPos {
-		return ""
-	}
-	return " at " + fset.Position(pos).String()
+// hostFunc is an engine-implemented function value usable where interpreted
+// code expects a func.
+type hostFunc struct {
+	name string
+	f    func(m *Machine, caller *frame, args []value) value
 }
 
-// callSSA interprets a call to function fn with arguments args,
-// and lexical environment env, returning its result.
-// callpos is the position of the callsite.
-func callSSA(i *interpreter, caller *frame, callpos token.Pos, fn *ssa.Function, args []value, env []value) value {
-	if i.mode&EnableTracing != 0 {
-		fset := fn.Prog.Fset
-		// TODO(adonovan): fix: loc() lies for external functions.
-		fmt.Fprintf(os.Stderr, "Entering %s%s.\n", fn, loc(fset, fn.Pos()))
-		suffix := ""
-		if caller != nil {
-			suffix = ", resuming " + caller.fn.String() + loc(fset, callpos)
-		}
-		defer fmt.Fprintf(os.Stderr, "Leaving %s%s.\n", fn, suffix)
+func (m *Machine) callSSA(caller *frame, callpos token.Pos, fn *ssa.Function, args []value, env []value) value {
+	fr := &frame{m: m, caller: caller, fn: fn}
+	if caller != nil {
+		fr.depth = caller.depth + 1
+		fr.g = caller.g
+	} else {
+		fr.g = m.cur
 	}
-	fr := &frame{
-		i:      i,
-		caller: caller, // for panic/recover
-		fn:     fn,
+	if fr.depth > m.cfg.MaxDepth {
+		panic(pathEnd{"fatal", "stack overflow: call depth > " + fmt.Sprint(m.cfg.MaxDepth) + " in " + fn.String()})
 	}
-	if fn.Parent() == nil {
-		name := fn.String()
-		if ext := externals[name]; ext != nil {
-			if i.mode&EnableTracing != 0 {
-				fmt.Fprintln(os.Stderr, "\t(external)")
-			}
-			return ext(fr, args)
-		}
-		if fn.Blocks == nil {
-			panic("no code for function: " + name)
-		}
+	if ext := m.prog.lookupExternal(fn); ext != nil {
+		m.noteStub(fn)
+		return ext(fr, args)
 	}
-
-	// generic function body?
+	if fn.Blocks == nil {
+		panic(unsupported{"no code for function: " + fn.String() + callerInfo(caller)})
+	}
 	if fn.TypeParams().Len() > 0 && len(fn.TypeArgs()) == 0 {
-		panic("interp requires ssa.BuilderMode to include InstantiateGenerics to execute generics")
+		panic(engineFault{"uninstantiated generic " + fn.String()})
 	}
+	if m.cfg.Trace {
+		fmt.Printf("%*s-> %s\n", fr.depth, "", fn)
+	}
+	m.noteFunc(fn)
 
 	fr.env = make(map[ssa.Value]value)
 	fr.block = fn.Blocks[0]
 	fr.locals = make([]value, len(fn.Locals))
 	for i, l := range fn.Locals {
-		fr.locals[i] = zero(typeparams.MustDeref(l.Type()))
+		fr.locals[i] = zero(deref(l.Type()))
 		fr.env[l] = &fr.locals[i]
 	}
 	for i, p := range fn.Params {
@@ -542,71 +437,74 @@ func callSSA(i *interpreter, caller *frame, callpos token.Pos, fn *ssa.Function,
 		fr.env[fv] = env[i]
 	}
 	for fr.block != nil {
-		runFrame(fr)
-	}
-	// Destroy the locals to avoid accidental use after return.
-	for i := range fn.Locals {
-		fr.locals[i] = bad{}
+		m.runFrame(fr)
 	}
 	return fr.result
 }
 
-// runFrame executes SSA instructions starting at fr.block and
-// continuing until a return, a panic, or a recovered panic.
-//
-// After a panic, runFrame panics.
-//
-// After a normal return, fr.result contains the result of the call
-// and fr.block is nil.
-//
-// A recovered panic in a function without named return parameters
-// (NRPs) becomes a normal return of the zero value of the function's
-// result type.
-//
-// After a recovered panic in a function with NRPs, fr.result is
-// undefined and fr.block contains the block at which to resume
-// control.
-func runFrame(fr *frame) {
+func stackOf(fr *frame) string {
+	var parts []string
+	for f := fr; f != nil && len(parts) < 12; f = f.caller {
+		parts = append(parts, fnShortName(f.fn))
+	}
+	return strings.Join(parts, " < ")
+}
+
+func callerInfo(fr *frame) string {
+	if fr == nil {
+		return ""
+	}
+	return " (called from " + fr.fn.String() + ")"
+}
+
+func (m *Machine) runFrame(fr *frame) {
 	defer func() {
 		if fr.block == nil {
-			return // normal return
+			return
 		}
-		if fr.i.mode&DisableRecover != 0 {
-			return // let interpreter crash
+		r := recover()
+		if isEngineAbort(r) {
+			switch x := r.(type) {
+			case unsupported:
+				if !strings.Contains(x.what, " @ ") {
+					x.what += " @ " + stackOf(fr)
+					r = x
+				}
+			case engineFault:
+				if !strings.Contains(x.msg, " @ ") {
+					x.msg += " @ " + stackOf(fr)
+					r = x
+				}
+			}
+			panic(r)
+		}
+		if _, ok := r.(targetPanic); !ok {
+			// a Go runtime error inside the engine: engine bug, not a target panic
+			panic(engineFault{fmt.Sprintf("engine crash: %v @ %s", r, stackOf(fr))})
 		}
 		fr.panicking = true
-		fr.panic = recover()
-		if fr.i.mode&EnableTracing != 0 {
-			fmt.Fprintf(os.Stderr, "Panicking: %T %v.\n", fr.panic, fr.panic)
-		}
+		fr.panic = r
 		fr.runDefers()
 		fr.block = fr.fn.Recover
+		if fr.block == nil {
+			// recovered in a function without named results: return zero values
+			fr.result = zero(fr.fn.Signature.Results())
+			if fr.fn.Signature.Results().Len() == 0 {
+				fr.result = nil
+			}
+		}
 	}()
 
 	for {
-		if fr.i.mode&EnableTracing != 0 {
-			fmt.Fprintf(os.Stderr, ".%s:\n", fr.block)
-		}
-
 		nonPhis := executePhis(fr)
 		for _, instr := range nonPhis {
-			if fr.i.mode&EnableTracing != 0 {
-				if v, ok := instr.(ssa.Value); ok {
-					fmt.Fprintln(os.Stderr, "\t", v.Name(), "=", instr)
-				} else {
-					fmt.Fprintln(os.Stderr, "\t", instr)
-				}
-			}
-			if visitInstr(fr, instr) == kReturn {
+			if m.visitInstr(fr, instr) == kReturn {
 				return
 			}
-			// Inv: kNext (continue) or kJump (last instr)
 		}
 	}
 }
 
-// executePhis executes the phi-nodes at the start of the current
-// block and returns the non-phi instructions.
 func executePhis(fr *frame) []ssa.Instruction {
 	firstNonPhi := -1
 	for i, instr := range fr.block.Instrs {
@@ -615,22 +513,13 @@ func executePhis(fr *frame) []ssa.Instruction {
 			break
 		}
 	}
-	// Inv: 0 <= firstNonPhi; every block contains a non-phi.
-
 	nonPhis := fr.block.Instrs[firstNonPhi:]
 	if firstNonPhi > 0 {
 		phis := fr.block.Instrs[:firstNonPhi]
-		// Execute parallel assignment of phis.
-		//
-		// See "the swap problem" in Briggs et al's "Practical Improvements
-		// to the Construction and Destruction of SSA Form" for discussion.
 		predIndex := slices.Index(fr.block.Preds, fr.prevBlock)
 		fr.phitemps = fr.phitemps[:0]
 		for _, phi := range phis {
 			phi := phi.(*ssa.Phi)
-			if fr.i.mode&EnableTracing != 0 {
-				fmt.Fprintln(os.Stderr, "\t", phi.Name(), "=", phi)
-			}
 			fr.phitemps = append(fr.phitemps, fr.get(phi.Edges[predIndex]))
 		}
 		for i, phi := range phis {
@@ -640,115 +529,60 @@ func executePhis(fr *frame) []ssa.Instruction {
 	return nonPhis
 }
 
-// doRecover implements the recover() built-in.
-func doRecover(caller *frame) value {
-	// recover() must be exactly one level beneath the deferred
-	// function (two levels beneath the panicking function) to
-	// have any effect.  Thus we ignore both "defer recover()" and
-	// "defer f() -> g() -> recover()".
-	if caller.i.mode&DisableRecover == 0 &&
-		caller != nil && !caller.panicking &&
+func (m *Machine) doRecover(caller *frame) value {
+	if caller != nil && !caller.panicking &&
 		caller.caller != nil && caller.caller.panicking {
 		caller.caller.panicking = false
 		p := caller.caller.panic
 		caller.caller.panic = nil
-
-		// TODO(adonovan): support runtime.Goexit.
 		switch p := p.(type) {
 		case targetPanic:
-			// The target program explicitly called panic().
 			return p.v
-		case runtime.Error:
-			// The interpreter encountered a runtime error.
-			return iface{caller.i.runtimeErrorString, p.Error()}
-		case string:
-			// The interpreter explicitly called panic().
-			return iface{caller.i.runtimeErrorString, p}
 		default:
-			panic(fmt.Sprintf("unexpected panic type %T in target call to recover()", p))
+			panic(engineFault{fmt.Sprintf("unexpected panic type %T in target call to recover()", p)})
 		}
 	}
 	return iface{}
 }
 
-// Interpret interprets the Go program whose main package is mainpkg.
-// mode specifies various interpreter options.  filename and args are
-// the initial values of os.Args for the target program.  sizes is the
-// effective type-sizing function for this program.
-//
-// Interpret returns the exit code of the program: 2 for panic (like
-// gc does), or the argument to os.Exit for normal termination.
-//
-// The SSA program must include the "runtime" package.
-//
-// Type parameterized functions must have been built with
-// InstantiateGenerics in the ssa.BuilderMode to be interpreted.
-func Interpret(mainpkg *ssa.Package, mode Mode, sizes types.Sizes, filename string, args []string) (exitCode int) {
-	i := &interpreter{
-		prog:       mainpkg.Prog,
-		globals:    make(map[*ssa.Global]*value),
-		mode:       mode,
-		sizes:      sizes,
-		goroutines: 1,
-	}
-	runtimePkg := i.prog.ImportedPackage("runtime")
-	if runtimePkg != nil {
-		i.runtimeErrorString = runtimePkg.Type("errorString").Object().Type()
-	}
-
-	initReflect(i)
-
-	i.osArgs = append(i.osArgs, filename)
-	for _, arg := range args {
-		i.osArgs = append(i.osArgs, arg)
-	}
-
-	for _, pkg := range i.prog.AllPackages() {
-		// Initialize global storage.
-		for _, m := range pkg.Members {
-			switch v := m.(type) {
-			case *ssa.Global:
-				cell := zero(typeparams.MustDeref(v.Type()))
-				i.globals[v] = &cell
+func (m *Machine) rangeIter(x value) iter {
+	switch x := x.(type) {
+	case *omap:
+		it := &omapIter{o: x}
+		if x != nil {
+			var live []int
+			for i := range x.keys {
+				if x.alive[i] {
+					live = append(live, i)
+				}
 			}
+			it.order = m.mapOrder(live)
 		}
+		return it
+	case string, sstr:
+		return &stringIter{b: strBytes(x)}
 	}
+	panic(unsupported{fmt.Sprintf("range over %T", x)})
+}
 
-	// Top-level error handler.
-	exitCode = 2
-	defer func() {
-		if exitCode != 2 || i.mode&DisableRecover != 0 {
-			return
-		}
-		switch p := recover().(type) {
-		case exitPanic:
-			exitCode = int(p)
-			return
-		case targetPanic:
-			fmt.Fprintln(os.Stderr, "panic:", toString(p.v))
-		case runtime.Error:
-			fmt.Fprintln(os.Stderr, "panic:", p.Error())
-		case string:
-			fmt.Fprintln(os.Stderr, "panic:", p)
-		default:
-			fmt.Fprintf(os.Stderr, "panic: unexpected type: %T: %v\n", p, p)
-		}
-
-		// TODO(adonovan): dump panicking interpreter goroutine?
-		// buf := make([]byte, 0x10000)
-		// runtime.Stack(buf, false)
-		// fmt.Fprintln(os.Stderr, string(buf))
-		// (Or dump panicking target goroutine?)
-	}()
-
-	// Run!
-	call(i, nil, token.NoPos, mainpkg.Func("init"), nil)
-	if mainFn := mainpkg.Func("main"); mainFn != nil {
-		call(i, nil, token.NoPos, mainFn, nil)
-		exitCode = 0
-	} else {
-		fmt.Fprintln(os.Stderr, "No main function.")
-		exitCode = 1
+// mapOrder picks the iteration order of a map with the given live entries.
+// With MapOrderAll enabled (and few entries) every permutation is explored as
+// a decision; otherwise insertion order is used (stated assumption).
+func (m *Machine) mapOrder(live []int) []int {
+	if !m.mapOrderAll || len(live) < 2 || len(live) > m.cfg.MapOrderMax {
+		return live
 	}
-	return
+	rest := append([]int(nil), live...)
+	var out []int
+	for len(rest) > 1 {
+		i := m.choose(len(rest), "map-order")
+		out = append(out, rest[i])
+		rest = append(rest[:i], rest[i+1:]...)
+	}
+	return append(out, rest[0])
+}
+
+func fnShortName(fn *ssa.Function) string {
+	s := fn.String()
+	return strings.TrimPrefix(s, "github.com/kercylan98/vivid/")
 }
